@@ -118,6 +118,9 @@ func writeSession(o *Out, kind string, wo wOpts, roots []cid.Cid, bs []Blk, seq 
 // batchLen: how many of the next blocks go into one PutMany (0 = a single Put). Derived from the
 // session number and position only, so a script replays exactly.
 func batchLen(kind string, bs []Blk, i, seq int) int {
+	if kind == "bs" && wholeBatch {
+		return len(bs) - i
+	}
 	if kind != "bs" || seq%2 == 0 {
 		return 0
 	}
@@ -127,6 +130,9 @@ func batchLen(kind string, bs []Blk, i, seq int) int {
 	}
 	return k
 }
+
+// wholeBatch: the fixed second case hands its whole block list (which repeats blocks) to one PutMany
+var wholeBatch bool
 
 type plainWriter struct{ w *bytes.Buffer }
 
@@ -270,12 +276,23 @@ func famC01(g *Gen, o *Out, n int, thorough bool) {
 		if c == -1 {
 			bs = boundaryBlocks(g)
 		}
+		wholeBatch = c == 0
+		if c == 0 {
+			// fixed: one batch that repeats a block next to itself, at a distance, and under another codec
+			mk := func(d []byte) Blk {
+				h, _ := mh.Sum(d, mh.SHA2_256, -1)
+				return Blk{cid.NewCidV1(cid.Raw, h), d}
+			}
+			b1, b2, b3 := mk([]byte("one")), mk([]byte("two, a little longer")), mk([]byte{})
+			alt := Blk{cid.NewCidV1(cid.DagCBOR, b1.C.Hash()), b1.D}
+			bs = []Blk{b1, b1, b2, b3, b1, alt, b2}
+		}
 		o.HashBlocks(bs)
 		roots := g.Roots(bs)
 		wo := g.wOpts()
 		wo.mcs = 2048
 		for _, kind := range writerKinds {
-			if !thorough && g.pick(2) == 0 && c >= 0 {
+			if !thorough && g.pick(2) == 0 && c >= 1 {
 				continue
 			}
 			seq++
